@@ -38,8 +38,11 @@ def gen(rng, i, tier):
         for j in (2, 3, 6):
             if args[j] is not None:
                 args[j] = np.asarray(args[j])[order]
+    intq = bool(rng.random() < 0.1 and qorder == "ascending")
+    if intq:
+        args[2] = np.arange(1, len(args[2]) + 1, dtype=float)      # Q in units of the bin width, held as whole numbers (see evaluate)
     return dict(entry=e, args=[tolist(a) if not np.isscalar(a) else a for a in args], kw=c["kw"],
-                lorch=c["meta"]["lorch"], omitted=c["meta"]["omitted"], pert=float(rng.normal() * 3), qorder=qorder, cutkind=cutkind)
+                lorch=c["meta"]["lorch"], omitted=c["meta"]["omitted"], pert=float(rng.normal() * 3), qorder=qorder, cutkind=cutkind, intq=intq)
 
 
 def run(case, args=None):
@@ -74,6 +77,18 @@ def evaluate(case):
         return [f"{name}: calling the filter twice on the same arrays gives different results"]
     q_ft, rem, qc, cor, ro, go, drem, dcor, dgo = [np.asarray(o, dtype=float) for o in out]
     fails = []
+    if case.get("intq"):
+        # the same Q grid held in an integer array: the same nine outputs
+        with np.errstate(all="ignore"):
+            try:
+                outi = getattr(type(ff)(), name)(r.copy(), gr.copy(), q.astype(np.int64), fq.copy(), cutoff, None if dgr is None else dgr.copy(), None if dfq is None else dfq.copy(), **kw)
+                for k9, (a9, b9) in enumerate(zip(out, outi)):
+                    a9, b9 = np.asarray(a9, dtype=float), np.asarray(b9, dtype=float)
+                    if a9.shape != b9.shape or not np.allclose(a9, b9, rtol=1e-12, atol=1e-12 * max(1.0, float(np.abs(a9[np.isfinite(a9)]).max(initial=0.0))), equal_nan=True):
+                        fails.append(f"{name}: output {k9} on an integer-typed Q grid differs from the same grid as floats")
+                        return fails
+            except Exception as ex:  # noqa: BLE001
+                return [f"{name}: an integer-typed Q grid raises {type(ex).__name__}"]
     # the same array objects, refilled in place with other data, filtered again by the same object: the answer is that of the new data
     g_new = np.asarray(gr, dtype=float) * 0.7 + 0.3 * np.roll(np.asarray(gr, dtype=float), 1)
     with np.errstate(all="ignore"):
